@@ -8,7 +8,9 @@
 (* (a call or a retry overdue - accepted by no action).                    *)
 (*   - callbacks: D and R alternate, starting with D; Subscribe returns    *)
 (*     right after a D (one disconnect per ended attempt, one reset before *)
-(*     each retry);                                                        *)
+(*     each retry); a client that has not been closed keeps resubscribing: *)
+(*     Subscribe (whose context is never cancelled here) does not return   *)
+(*     before Close has been called;                                       *)
 (*   - on every stream Connected precedes all other notifications (a       *)
 (*     stream starts at "attempt"); update ids increase along a stream;    *)
 (*   - after Close returned, at most the notifications of one further      *)
@@ -16,43 +18,45 @@
 (***************************************************************************)
 EXTENDS Naturals, Sequences, FiniteSets, TLC, Json, IOUtils
 
-VARIABLES l, word, sub, closeRet, connected, lastId, after   \* after: ids of messages delivered after Close returned
+VARIABLES l, word, sub, closeRet, connected, lastId, after,   \* after: ids of messages delivered after Close returned
+          closeInv                                              \* Close has been called
 
 Trace == ndJsonDeserialize(IOEnv.TRACE)
-tvars == <<l, word, sub, closeRet, connected, lastId, after>>
+tvars == <<l, word, sub, closeRet, connected, lastId, after, closeInv>>
 Ev == Trace[l]
 St(name) == l <= Len(Trace) /\ Trace[l].ev = name /\ l' = l + 1
 
-TInit == l = 1 /\ word = "start" /\ sub = "idle" /\ closeRet = FALSE /\ connected = FALSE /\ lastId = 0 /\ after = {} /\ TLCSet(1, 1)
+TInit == l = 1 /\ word = "start" /\ sub = "idle" /\ closeRet = FALSE /\ connected = FALSE /\ lastId = 0 /\ after = {} /\ closeInv = FALSE /\ TLCSet(1, 1)
 
 TReset ==
     /\ St("reset")
-    /\ word' = "start" /\ sub' = "idle" /\ closeRet' = FALSE /\ connected' = FALSE /\ lastId' = 0 /\ after' = {}
+    /\ word' = "start" /\ sub' = "idle" /\ closeRet' = FALSE /\ connected' = FALSE /\ lastId' = 0 /\ after' = {} /\ closeInv' = FALSE
 
 TInv ==
     /\ St("inv")
     /\ sub' = IF Ev.op = "Subscribe" THEN "running" ELSE sub
+    /\ closeInv' = (closeInv \/ Ev.op = "Close")
     /\ UNCHANGED <<word, closeRet, connected, lastId, after>>
 
 TRet ==
     /\ St("ret")
     /\ IF Ev.op = "Subscribe"
-       THEN /\ sub = "running" /\ word = "D"
+       THEN /\ sub = "running" /\ word = "D" /\ closeInv
             /\ sub' = "returned" /\ UNCHANGED closeRet
        ELSE /\ closeRet' = TRUE /\ UNCHANGED sub
-    /\ UNCHANGED <<word, connected, lastId, after>>
+    /\ UNCHANGED <<word, connected, lastId, after, closeInv>>
 
 TCb ==
     /\ St("cb") /\ sub = "running"
     /\ word' = (IF Ev.k = "D" THEN (IF word \in {"start", "R"} THEN "D" ELSE "bad")
                 ELSE (IF word = "D" THEN "R" ELSE "bad"))
     /\ word' # "bad"
-    /\ UNCHANGED <<sub, closeRet, connected, lastId, after>>
+    /\ UNCHANGED <<sub, closeRet, connected, lastId, after, closeInv>>
 
 TAttempt ==
     /\ St("attempt")
     /\ connected' = FALSE /\ lastId' = 0
-    /\ UNCHANGED <<word, sub, closeRet, after>>
+    /\ UNCHANGED <<word, sub, closeRet, after, closeInv>>
 
 TNoti ==
     /\ St("noti")
@@ -61,10 +65,10 @@ TNoti ==
             /\ IF Ev.k = "update" THEN Ev.id > lastId /\ lastId' = Ev.id ELSE UNCHANGED lastId
     /\ after' = IF closeRet THEN after \cup {Ev.msg} ELSE after
     /\ Cardinality(after') <= 1
-    /\ UNCHANGED <<word, sub, closeRet>>
+    /\ UNCHANGED <<word, sub, closeRet, closeInv>>
 
-TSrv == St("srv") /\ UNCHANGED <<word, sub, closeRet, connected, lastId, after>>
-TFinal == St("final") /\ sub \in {"idle", "returned"} /\ UNCHANGED <<word, sub, closeRet, connected, lastId, after>>
+TSrv == St("srv") /\ UNCHANGED <<word, sub, closeRet, connected, lastId, after, closeInv>>
+TFinal == St("final") /\ sub \in {"idle", "returned"} /\ UNCHANGED <<word, sub, closeRet, connected, lastId, after, closeInv>>
 
 TNext == TReset \/ TInv \/ TRet \/ TCb \/ TAttempt \/ TNoti \/ TSrv \/ TFinal
 TSpec == TInit /\ [][TNext]_tvars
